@@ -10,6 +10,7 @@ import (
 	"crypto/tls"
 	"crypto/x509"
 	"crypto/x509/pkix"
+	"encoding/pem"
 	"io"
 	"log"
 	"math/big"
@@ -364,4 +365,24 @@ func (p *Proxy) Stop() error {
 	p.Transport.CloseIdleConnections()
 	p.Backend.Close()
 	return err
+}
+
+// CertPairsPEM returns n freshly generated ECDSA certificate/key pairs as PEM; pair i has serial i+1.
+func CertPairsPEM(n int) [][2][]byte {
+	var out [][2][]byte
+	for i := 0; i < n; i++ {
+		k, err := ecdsa.GenerateKey(elliptic.P256(), rand.Reader)
+		if err != nil {
+			panic(err)
+		}
+		tmpl := &x509.Certificate{SerialNumber: big.NewInt(int64(i + 1)), Subject: pkix.Name{CommonName: "verif.test"}, NotBefore: time.Now().Add(-time.Hour), NotAfter: time.Now().Add(24 * time.Hour),
+			KeyUsage: x509.KeyUsageDigitalSignature, DNSNames: []string{"verif.test"}}
+		der, err := x509.CreateCertificate(rand.Reader, tmpl, tmpl, &k.PublicKey, k)
+		if err != nil {
+			panic(err)
+		}
+		kb, _ := x509.MarshalECPrivateKey(k)
+		out = append(out, [2][]byte{pem.EncodeToMemory(&pem.Block{Type: "CERTIFICATE", Bytes: der}), pem.EncodeToMemory(&pem.Block{Type: "EC PRIVATE KEY", Bytes: kb})})
+	}
+	return out
 }
